@@ -30,7 +30,7 @@ def run(ctx):
     F = ctx.facts("quick")
     ex, sd, cfg = routers.report(ctx, F, "reqrep", "C10", is_c10)
     p = cfg.body
-    ctx.floor("C10.pollai.persistent-states", len(ex.persistent), 40)
+    ctx.floor("C10.pollai.persistent-states", len(ex.persistent), 8)
     ops = ex.h.ops_seen
     for need in (("local:si", "ready"), ("local:si", "send"), ("local:si", "close"), ("server.0.0", "send")):
         ctx.check(ops.get(need, 0) > 0, "C10.pollai.ops", "reqrep:op-not-seen:%s.%s" % need, "operation %s.%s is exercised by the exploration (%d times)" % (need[0], need[1], ops.get(need, 0)), p.span)
